@@ -60,6 +60,11 @@ def build(case):
         return arr(case["A"]), arr(case["y"]), arr(case["x0"]), (arr(case["u0"]) if "u0" in case else None)
     rs = np.random.RandomState(case["seed"])
     m, n, cplx = case["m"], case["n"], case["cplx"]
+    if case["akind"] == "identity":            # f = 1/2||x - y||^2 (aliasing-gradient cases): gradf(x) = x - y, L = 1
+        A = np.eye(n, dtype=complex if cplx else float)
+        y = cvec(rs, n, cplx) * (0.0 if case.get("yzero", True) else 1.0)
+        x0 = cvec(rs, n, cplx) * case["x0scale"]
+        return A, y, x0, np.zeros(n, dtype=A.dtype)
     A = gen_matrix(rs, m, n, cplx, case["akind"])
     y = cvec(rs, m, cplx)
     x0 = cvec(rs, n, cplx) * case["x0scale"]
@@ -224,22 +229,79 @@ def coq_step(t, cplx):
 
 
 # ---------------------------------------------------------------- GradientMethod
+# gradients that RETURN THEIR ARGUMENT (the object itself or a view of it) or a caller-owned persistent buffer.
+# f = 1/2||x - y||^2 (A = I): the gradient of f at x is x - y, for y = 0 it is x itself, so `lambda x: x`, `A.N` of
+# Identity / Reshape / Transpose operators (which hand back their input or a view of it) are legitimate gradf arguments.
+GALIAS = ("self", "view", "identity-N", "reshape-N", "transpose-N", "reshape-HR", "transpose-HT", "buffer")
+
+
+def make_gradf(sp, case, A, y, n, tr):
+    """gradf of the case; [tr] collects what the harness observes about the returned arrays"""
+    k = case.get("galias")
+    if k is None:
+        AH = A.conj().T
+        return lambda v: AH @ (A @ v - y)
+    sh2 = list(case["shape2"])
+    if k == "buffer":
+        buf = np.zeros(n, dtype=A.dtype)          # owned by the caller of GradientMethod, reused for every call
+        tr["buf"] = buf
+
+        def gradf(v):
+            np.subtract(v, y, out=buf)
+            tr["last"] = buf.copy()
+            return buf
+        return gradf
+    if np.any(y != 0):
+        raise ValueError("aliasing gradient needs y = 0")
+    LO = sp.linop
+    if k == "self":
+        g = lambda v: v                            # noqa: E731
+    elif k == "view":
+        g = lambda v: v[:]                         # noqa: E731
+    elif k == "identity-N":
+        g = LO.Identity([n]).N                     # Identity: _apply returns its input
+    elif k == "reshape-N":
+        g = LO.Reshape(sh2, [n]).N                 # Reshape._normal_linop = Identity
+    elif k == "transpose-N":
+        # Transpose._normal_linop = Identity on the 2-D shape, between the reshapes of the flat iterate
+        g = LO.Compose([LO.Reshape([n], sh2), LO.Transpose(sh2).N, LO.Reshape(sh2, [n])])
+    elif k == "reshape-HR":
+        R = LO.Reshape(sh2, [n])
+        g = R.H * R                                # reshape there and back: a VIEW of the input
+    elif k == "transpose-HT":
+        R = LO.Reshape(sh2, [n])
+        B = LO.Transpose(sh2) * R
+        g = B.H * B                                # reshape, transpose, transpose back, reshape back: a view
+    else:
+        raise ValueError(k)
+
+    def gradf(v):
+        out = g(v)
+        tr["aliased"] = tr.get("aliased", True) and bool(np.shares_memory(out, v))
+        return out
+    return gradf
+
+
 def run_gm(sp, case):
     A, y, x0, _ = build(case)
     n = A.shape[1]
     Lc = lipschitz(A)
     alpha = case["frac"] / Lc
-    AH = A.conj().T
     x = x0.copy()
-    alg = sp.alg.GradientMethod(lambda v: AH @ (A @ v - y), x, alpha, proxg=sp_prox(sp, case, n),
+    tr = {}
+    alg = sp.alg.GradientMethod(make_gradf(sp, case, A, y, n, tr), x, alpha, proxg=sp_prox(sp, case, n),
                                 accelerate=case["acc"], max_iter=case["niter"])
     obs = []
+    buffer_bad = None
     while not alg.done():
         alg.update()
         obs.append(dict(x=alg.x.copy(), z=alg.z.copy() if case["acc"] else None,
                         t=float(alg.t) if case["acc"] else 0.0, resid=float(alg.resid)))
+        if "buf" in tr and buffer_bad is None and not np.array_equal(tr["buf"], tr["last"]):
+            buffer_bad = dict(k=len(obs), expected=store(tr["last"]), observed=store(tr["buf"]))
     inplace = alg.x is x
-    return dict(A=A, y=y, x0=x0, L=Lc, alpha=alpha, obs=obs, x_final=x, inplace=inplace)
+    return dict(A=A, y=y, x0=x0, L=Lc, alpha=alpha, obs=obs, x_final=x, inplace=inplace, buffer_bad=buffer_bad,
+                aliased=tr.get("aliased"))
 
 
 def ref_gm(case, A, y, x0, alpha, niter):
@@ -317,6 +379,19 @@ def oracle_gm(case, r):
                 bad.append((name, "objective gap %r exceeds the bound %r at update %d" % (F[k] - Fs, bound, k),
                             dict(k=k, expected="<= %r" % bound, observed=F[k] - Fs, xstar=store(xs))))
                 break
+    if r.get("buffer_bad"):
+        bb = r["buffer_bad"]
+        bad.append(("gradf-buffer-modified", "update %d modified the caller-owned array returned by gradf" % bb["k"],
+                    dict(k=bb["k"], expected=bb["expected"], observed=bb["observed"])))
+    if case.get("galias") and case["g"] in ("none", "noop") and not case["acc"] and not np.any(y != 0):
+        # f = 1/2||x||^2, no prox: x_{k+1} = (1 - alpha) x_k, whatever array gradf hands back
+        sc = max(1.0, float(np.max(np.abs(x0))))
+        for k in range(1, len(xsq)):
+            exp = (1.0 - alpha) * xsq[k - 1]
+            if not close(xsq[k], exp, sc):
+                bad.append(("alias-contraction", "gradf returns %s: x_%d != (1 - alpha) x_%d" % (case["galias"], k, k - 1),
+                            dict(k=k, expected=store(exp), observed=store(xsq[k]))))
+                break
     if not r["inplace"]:
         bad.append(("inplace", "alg.x is no longer the caller's array", dict(expected="alg.x is x", observed="different object")))
     elif obs and not np.array_equal(r["x_final"], obs[-1]["x"]):
@@ -335,7 +410,9 @@ def oracle_gm(case, r):
                              observed=dict(x=store(o["x"]), t=o["t"], resid=o["resid"],
                                            z=store(o["z"]) if case["acc"] else None))))
             break
-    return bad, dict(accurate=accurate, moved=bool(obs and obs[0]["resid"] > 0))
+    return bad, dict(accurate=accurate, moved=bool(obs and obs[0]["resid"] > 0),
+                     alias_seen=bool(case.get("galias") and case["galias"] != "buffer" and r.get("aliased")),
+                     alias_missing=bool(case.get("galias") and case["galias"] != "buffer" and not r.get("aliased")))
 
 
 # ---------------------------------------------------------------- PDHG
@@ -522,6 +599,28 @@ def gen_gm(rng):
     return c
 
 
+def gen_gm_alias(rng):
+    """GradientMethod on f = 1/2||x - y||^2 (+ g) with a gradf that returns its argument, a view of it, or a persistent
+    caller-owned buffer; alpha = frac <= 1/L = 1"""
+    cplx = rng.random() < 0.4
+    a, b = rng.randint(1, 3), rng.randint(1, 3)
+    if cplx and a * b > 6:
+        b = 2
+    n = a * b
+    galias = rng.choice(GALIAS + ("self", "buffer"))
+    g = rng.choice(["none", "none", "none", "noop", "l1", "l2"] + ([] if cplx else ["box"]))
+    c = dict(kind="gm", galias=galias, shape2=[a, b], m=n, n=n, cplx=cplx, g=g, seed=rng.randrange(2 ** 31), akind="identity",
+             x0scale=rng.choice([1.0, 1.0, 3.0]), niter=rng.randint(6, 16), acc=rng.random() < 0.5,
+             frac=rng.choice([0.5, 0.5, 0.9, 0.25, 1.0, round(rng.uniform(0.05, 1.0), 3)]),
+             yzero=(galias != "buffer") or rng.random() < 0.3)
+    if g in ("l1", "l2"):
+        c["lam"] = rng.choice([0.01, 0.1, 0.5, 1.0])
+    if g == "box":
+        lo = rng.choice([-1.0, -0.25, 0.0])
+        c["box"] = [lo, lo + rng.choice([0.25, 0.5, 2.0])]
+    return c
+
+
 def gen_pd(rng):
     c = gen_common(rng, pd=True)
     mode = rng.choice(["none", "none", "primal", "dual", "both"])
@@ -544,6 +643,17 @@ def corpus_cases():
         dict(base, kind="gm", m=4, n=3, cplx=True, g="l1", lam=0.1, acc=True, frac=0.5),
         dict(base, kind="gm", m=6, n=6, cplx=False, g="box", box=[-0.25, 0.25], acc=False, frac=1.0, akind="ill"),
         dict(base, kind="gm", m=1, n=1, cplx=False, g="none", acc=False, frac=1.0),
+        # gradients that return their argument / a view of it / a caller-owned buffer (f = 1/2||x - y||^2, L = 1)
+        dict(base, kind="gm", galias="self", shape2=[2, 2], m=4, n=4, cplx=False, g="none", acc=False, frac=0.5, akind="identity", yzero=True, niter=8),
+        dict(base, kind="gm", galias="self", shape2=[3, 1], m=3, n=3, cplx=True, g="none", acc=True, frac=0.5, akind="identity", yzero=True, niter=8),
+        dict(base, kind="gm", galias="view", shape2=[1, 2], m=2, n=2, cplx=False, g="l1", lam=0.1, acc=False, frac=0.9, akind="identity", yzero=True, niter=8),
+        dict(base, kind="gm", galias="identity-N", shape2=[2, 3], m=6, n=6, cplx=False, g="none", acc=False, frac=0.25, akind="identity", yzero=True, niter=8),
+        dict(base, kind="gm", galias="reshape-N", shape2=[2, 3], m=6, n=6, cplx=True, g="noop", acc=True, frac=1.0, akind="identity", yzero=True, niter=8),
+        dict(base, kind="gm", galias="transpose-N", shape2=[2, 3], m=6, n=6, cplx=False, g="l2", lam=0.5, acc=False, frac=0.5, akind="identity", yzero=True, niter=8),
+        dict(base, kind="gm", galias="reshape-HR", shape2=[2, 2], m=4, n=4, cplx=False, g="none", acc=True, frac=0.9, akind="identity", yzero=True, niter=8),
+        dict(base, kind="gm", galias="transpose-HT", shape2=[3, 2], m=6, n=6, cplx=True, g="none", acc=False, frac=0.5, akind="identity", yzero=True, niter=8),
+        dict(base, kind="gm", galias="buffer", shape2=[2, 2], m=4, n=4, cplx=False, g="none", acc=False, frac=0.5, akind="identity", yzero=False, niter=8),
+        dict(base, kind="gm", galias="buffer", shape2=[2, 1], m=2, n=2, cplx=True, g="l1", lam=0.1, acc=True, frac=1.0, akind="identity", yzero=False, niter=8),
         dict(base, kind="pd", m=5, n=5, cplx=False, g="l2", lam=0.1, steps=("s", "s"), frac=1.0, theta=1.0, gp=0.0, gd=0.0, u0scale=0.0),
         dict(base, kind="pd", m=4, n=6, cplx=False, g="l1", lam=0.5, steps=("a", "a"), frac=1.0, theta=1.0, gp=0.0, gd=0.0, u0scale=1.0),
         dict(base, kind="pd", m=3, n=3, cplx=True, g="l2", lam=1.0, steps=("a", "a"), frac=0.9, theta=1.0, gp=1.0, gd=0.0, u0scale=0.0),
@@ -553,6 +663,8 @@ def corpus_cases():
 
 
 def cls_of(c):
+    if c["kind"] == "gm" and c.get("galias"):
+        return "gm-alias:%s:%s:%s" % (c["galias"], "cplx" if c["cplx"] else "real", "fista" if c["acc"] else "ista")
     if c["kind"] == "gm":
         return "gm:%s:%s:%s" % (c["g"], "cplx" if c["cplx"] else "real", "fista" if c["acc"] else "ista")
     acc = "acc-primal" if (c["gp"] > 0 and c["gd"] == 0) else "acc-dual" if (c["gp"] == 0 and c["gd"] > 0) else "const"
@@ -591,8 +703,10 @@ def run(ctx):
     n_gm, n_pd = ctx.n(110, 1500), ctx.n(130, 1800)
     cases = list(corpus_cases())
     cases += [gen_gm(rng) for _ in range(n_gm)] + [gen_pd(rng) for _ in range(n_pd)]
+    cases += [gen_gm_alias(rng) for _ in range(ctx.n(60, 800))]       # gradf returning its argument / a view / a persistent buffer
     done, oracle_bad = [], []
-    stats = dict(same_time_nonmonotone=0, fejer_checked=0, saddle_checked=0, rate_checked=0, step_array_written=0)
+    stats = dict(same_time_nonmonotone=0, fejer_checked=0, saddle_checked=0, rate_checked=0, step_array_written=0,
+                 alias_seen=0, alias_missing=0)
     for c in cases:
         try:
             r, bad, info, expr = evaluate(sp, c)
@@ -603,7 +717,7 @@ def run(ctx):
             continue
         ctx.count(cls_of(c), key=json.dumps(c, sort_keys=True), nontrivial=info["moved"] and c["m"] * c["n"] > 1,
                   sample={"params": c, "updates": len(r["obs"]), "last_resid": r["obs"][-1]["resid"] if r["obs"] else None})
-        for k in ("same_time_nonmonotone", "fejer_checked", "saddle_checked"):
+        for k in ("same_time_nonmonotone", "fejer_checked", "saddle_checked", "alias_seen", "alias_missing"):
             stats[k] += int(bool(info.get(k)))
         stats["rate_checked"] += int(c["kind"] == "gm" and info["accurate"])
         stats["step_array_written"] += int(bool(r.get("wrote_steps")))
@@ -625,7 +739,9 @@ def run(ctx):
     ctx.obligation("oracle:descent/rates/saddle/fejer/in-place/update-rule (%d cases)" % len(cases), not oracle_bad)
     ctx.coverage["rule"] = ("seeded composite problems min 1/2||Ax-y||^2+g(x), A in {gaussian, ill-conditioned 1e3, scaled, sparse}, dims 1-8 "
                             "(complex 1-5), g in {None, NoOp, l1, l2^2, box}; GradientMethod with alpha = frac/L (frac in (0,1]), "
-                            "accelerate on/off, 30-40 updates; PDHG in saddle form with scalar/array tau, sigma (tau*sigma*||A||^2 = frac <= 1), "
+                            "accelerate on/off, 30-40 updates; GradientMethod on f = 1/2||x-y||^2 (A = I, L = 1, alpha = frac <= 1) with a gradf that "
+                            "returns its argument (lambda x: x, a view, linop Identity.N / Reshape.N / Transpose.N, R.H*R, (T*R).H*(T*R)) or a "
+                            "persistent caller-owned buffer, real/complex, accelerate on/off, all g; PDHG in saddle form with scalar/array tau, sigma (tau*sigma*||A||^2 = frac <= 1), "
                             "theta=1 (and 0.5, 0 for the trajectory/fixed-point checks), gamma_primal/gamma_dual in {0,>0}; every iterate compared with the Coq float model (1e-9*scale); "
                             "a case is non-trivial when the first update moves x and m*n > 1; distinct = distinct parameter tuples")
     ctx.coverage["disagreements_model_vs_impl"] = len(failing)
@@ -633,6 +749,9 @@ def run(ctx):
     ctx.coverage["c13_stats"] = stats
     ctx.notes.append("same-time pairing (x_k,u_k) non-monotone in %d of %d Fejer-checked runs (expected, not a violation)"
                      % (stats["same_time_nonmonotone"], stats["fejer_checked"]))
+    ctx.notes.append("aliasing gradf cases: the array returned by gradf shared memory with its argument in %d runs, not in %d "
+                     "(the latter means the operator no longer aliases: generator to be revisited, not a violation)"
+                     % (stats["alias_seen"], stats["alias_missing"]))
     ctx.notes.append("accelerated branch wrote into a caller-supplied step array in %d runs (documented, not a violation)"
                      % stats["step_array_written"])
     reported = set()
